@@ -5,6 +5,8 @@ import (
 	"net/http"
 	"net/http/httputil"
 	"net/url"
+	"slices"
+	"strings"
 
 	"github.com/vulcand/oxy/v2/utils"
 )
@@ -17,6 +19,8 @@ func New(passHostHeader bool) *httputil.ReverseProxy {
 		Director: func(request *http.Request) {
 			modifyRequest(request)
 
+			dropForwardingConnectionOptions(request.Header)
+
 			h.Rewrite(request)
 
 			if !passHostHeader {
@@ -25,6 +29,37 @@ func New(passHostHeader bool) *httputil.ReverseProxy {
 		},
 		ErrorHandler: utils.DefaultHandler.ServeHTTP,
 	}
+}
+
+// dropForwardingConnectionOptions removes the forwarding headers (XHeaders) that the client
+// declared hop-by-hop by naming them in Connection, and removes their names from Connection.
+// ReverseProxy strips the headers named in Connection after the Director has run;
+// without this a client could make it strip the forwarding headers set by the Director.
+func dropForwardingConnectionOptions(h http.Header) {
+	values, ok := h[Connection]
+	if !ok {
+		return
+	}
+	kept := make([]string, 0, len(values))
+	for _, value := range values {
+		var options []string
+		for _, option := range strings.Split(value, ",") {
+			name := http.CanonicalHeaderKey(strings.TrimSpace(option))
+			if slices.Contains(XHeaders, name) {
+				h.Del(name)
+				continue
+			}
+			options = append(options, option)
+		}
+		if len(options) > 0 {
+			kept = append(kept, strings.Join(options, ","))
+		}
+	}
+	if len(kept) == 0 {
+		h.Del(Connection)
+		return
+	}
+	h[Connection] = kept
 }
 
 // Modify the request to handle the target URL.
